@@ -641,6 +641,7 @@ func c10Enumeration(env *hx.Env, rec *hx.Recorder, t *testing.T, judge func(*pg.
 		}
 		if r.S.Exit != 0 || r.NotBuilt != "" {
 			// attribute: judge each method alone
+			attributed := false
 			for k, c := range chunk {
 				q := &pg.Prog{ExtraFiles: p.ExtraFiles}
 				uf1 := &pg.UserFuncs{}
@@ -653,8 +654,17 @@ func c10Enumeration(env *hx.Env, rec *hx.Recorder, t *testing.T, judge func(*pg.
 					if r1.NotBuilt != "" {
 						what = "does-not-compile"
 					}
+					attributed = true
 					rec.Report(t, hx.Failf("C10|hook:"+c.Pos+"|fitting-hook-"+what, "hook that fits the method is %s: %+v\n%s\n%s\n%s", what, c, q.RenderSetup(), tail(r1.S.Stderr, 500), tail(r1.NotBuilt, 800)), progCase(q, q.Files(), "hook-combination"))
 				}
+			}
+			if !attributed {
+				// only the combination of methods fails: the batch is the case
+				what := "rejected"
+				if r.NotBuilt != "" {
+					what = "does-not-compile"
+				}
+				rec.Report(t, hx.Failf("C10|hook-batch|fitting-hooks-"+what, "a batch of methods with fitting hooks is %s although each method alone is accepted\n%s\n%s\n%s", what, p.RenderSetup(), tail(r.S.Stderr, 500), tail(r.NotBuilt, 800)), progCase(p, files, "hook-batch"))
 			}
 			continue
 		}
